@@ -235,9 +235,13 @@ def run_case(ck, rng, root, ci, tier):
     ext = [rng.choice(["compact", "wide", "mixed"]) for _ in range(4)]
     if stress:
         ext = ["compact"] * 4
-    weights = rng.random() < 0.6
+    # weights: all samples weighted / none / mixed (weighted data against unweighted randoms and vice versa), by turns
+    wmode = ["all", "mixed", "none", "mixed-reversed"][ci % 4]
+    wflags = {"all": [True] * 4, "none": [False] * 4, "mixed": [True, False, True, False],
+              "mixed-reversed": [False, True, False, True]}[wmode]
+    ck.count(f"weights={wmode}")
     samples = [G.make_sample(rng, field, n=max(sizes[k], N), extent_mode=ext[k], zrange=zr, edges=edges,
-                             weights=weights) for k in range(4)]
+                             weights=wflags[k]) for k in range(4)]
     rep = {"config": cfgkw, "kind": kind, "mode": mode, "field": {"ra": field["ra"].tolist(), "dec": field["dec"].tolist(),
            "base": field["base"]}, "samples": [{k: (None if v is None else np.asarray(v).tolist()) for k, v in s.items()
                                                 if k != "extent"} for s in samples]}
